@@ -851,6 +851,42 @@ func readerPosition(p *Prog, r *Report, rule string) {
 		})
 	}
 	r.check(len(bad) == 0 && n > 0, rule, "Seek call sites", "", fmt.Sprintf("%d position queries", n), strings.Join(dedupe(bad), " || "))
+	// the start of a slice of the body (BytesSince) is a position the same reader reported earlier:
+	// positions count from the start of the body, which is not where the message being decoded
+	// starts when something precedes it in the body (a custom payload, warnings, a tracing id), so a
+	// start computed any other way (lengths, differences of remaining bytes) selects other bytes
+	var bad2 []string
+	m := 0
+	for _, fn := range p.ScopedFuncs("codecs", "proxy", "proxycore") {
+		eachCall(fn, func(c ssa.CallInstruction) {
+			cm := c.Common()
+			callee := cm.StaticCallee()
+			if callee == nil || callee.Name() != "BytesSince" || recvNamed(callee) == nil || recvNamed(callee).Obj().Name() != "FrameBodyReader" || len(cm.Args) != 2 {
+				return
+			}
+			m++
+			rdr := origins(cm.Args[0])
+			for _, o := range origins(cm.Args[1]) {
+				ok := false
+				if pc, isCall := o.(*ssa.Call); isCall {
+					pcal := pc.Call.StaticCallee()
+					if pcal != nil && pcal.Name() == "Position" && recvNamed(pcal) == recvNamed(callee) && len(pc.Call.Args) == 1 {
+						for _, a := range origins(pc.Call.Args[0]) {
+							for _, b := range rdr {
+								if a == b {
+									ok = true
+								}
+							}
+						}
+					}
+				}
+				if !ok {
+					bad2 = append(bad2, fmt.Sprintf("%s: %s takes the bytes of the body since %s, which is not a position reported by the same reader: offsets into the body are absolute, and anything computed from lengths is relative to where this message starts (they differ as soon as the body has a custom payload, warnings or a tracing id in front of the message)", p.Pos(c.Pos()), fn.Name(), valDesc(o)))
+				}
+			}
+		})
+	}
+	r.check(len(bad2) == 0 && m > 0, rule, "BytesSince start positions", "", fmt.Sprintf("%d slices of the body start at a position the reader reported", m), strings.Join(dedupe(bad2), " || "))
 }
 
 // c17CrossWrites: writes to a client's connection made by goroutines that serve other
